@@ -523,11 +523,103 @@ def man_chain_case(kind, direction, orientation="QSW"):
                      "propagate(t2)" if direction == "fwd" else "epoch) of the returned orbit restores the initial state"))
 
 
+def man_pair_case(kind_a, kind_b, overlap=False):
+    """two maneuvers in chronological order (impulse = 'i', continuous burn given by its acceleration = 'c'), target date anywhere: the result is
+    the free motion plus, by linearity of Hill's equations, the contribution of each maneuver taken alone (an impulse counts
+    once its date is passed, a burn for the part of its window that lies before the target date).  overlap: the second
+    maneuver, an impulse, is dated inside the burn that precedes it"""
+    from beyond.orbits.man import ImpulsiveMan, ContinuousMan
+
+    inputs = [("n", "pos")]
+    for nm in ("ta", "da", "tb", "db", "t"):
+        inputs += [("th_" + nm, "angle", {"lo": "free"}), (nm, "timeof", {"angle": "th_" + nm, "rate": "n"})]
+    inputs += [(k, "real") for k in X6] + [(k, "real") for k in ("ax", "ay", "az", "bx", "by", "bz")]
+
+    def mk(env, kind, t, dur, dvec):
+        if kind == "i":
+            return ImpulsiveMan(mk_date(env, t), dvec)
+        return ContinuousMan(mk_date(env, t), mk_td(env, dur), accel=dvec)
+
+    def mans(env, v):
+        return [mk(env, kind_a, v["ta"], v["da"], [v["ax"], v["ay"], v["az"]]),
+                mk(env, kind_b, v["tb"], v["db"], [v["bx"], v["by"], v["bz"]])]
+
+    def pre(v):
+        end_a = v["ta"] + v["da"] if kind_a == "c" else v["ta"]
+        p = [v["ta"] >= 0, v["da"] > 0, v["db"] > 0]
+
+        def same(a, b):
+            # sound fact about the angle abstraction: two instants that coincide are the same angle (cos, sin functions of it)
+            return (a < b) | (a > b) | ((a.cos() == b.cos()) & (a.sin() == b.sin()))
+        ea, eb = v["th_ta"] + v["th_da"], v["th_tb"] + v["th_db"]
+        if kind_a == "c" and kind_b == "c":
+            # two burns: the coincidences target date = end of a burn / second start = first end are left out (with the facts
+            # above for five angles the queries exceed the budget; the same boundaries are decided for one burn in man/cont_*)
+            apart = lambda a, b: (a < b) | (a > b)
+            p += [apart(v["th_t"], ea), apart(v["th_tb"], ea), apart(v["th_t"], eb)]
+        elif kind_a == "c":
+            p += [same(v["th_t"], ea), same(v["th_tb"], ea)]
+        if kind_b == "c" and kind_a != "c":
+            p += [same(v["th_t"], eb)]
+        if overlap:
+            return p + [v["tb"] > v["ta"], v["tb"] < end_a]
+        return p + [v["tb"] >= end_a]
+
+    def run(env, v):
+        prop = mk_prop(env, v["n"])
+        try:
+            mk_orb(env, prop, _x0(v), mans=mans(env, v))
+            return {"x": list(prop.propagate(mk_date(env, v["t"])))}
+        finally:
+            if not env.symbolic:
+                _restore()
+
+    def contribution(env, n, t, kind, start, dur, d):
+        zero = [0, 0, 0, 0, 0, 0]
+        if kind == "i":
+            return cw_ref(env, n, t - start, [0, 0, 0] + list(d)) if t > start else zero
+        acc = list(d)               # burns given by their acceleration (the dv / duration conversion is man/cont_dv)
+        if t <= start:
+            return zero
+        if t < start + dur:
+            return cw_ref(env, n, t - start, zero, acc)
+        return cw_ref(env, n, t - start - dur, cw_ref(env, n, dur, zero, acc))
+
+    def ref_cc(env, v):
+        # two burns one after the other: piecewise closed form, segment by segment (the superposition form of this case is
+        # beyond the solver's time budget: five angles)
+        n, t, x, at = v["n"], v["t"], _x0(v), 0
+        for start, dur, acc in ((v["ta"], v["da"], [v["ax"], v["ay"], v["az"]]), (v["tb"], v["db"], [v["bx"], v["by"], v["bz"]])):
+            if t <= start:
+                break
+            x, at = cw_ref(env, n, start - at, x), start
+            end = start + dur if t >= start + dur else t
+            x, at = cw_ref(env, n, end - at, x, acc), end
+        return {"x": cw_ref(env, n, t - at, x)}
+
+    def ref(env, v, out):
+        if kind_a == "c" and kind_b == "c":
+            return ref_cc(env, v)
+        n, t = v["n"], v["t"]
+        x = cw_ref(env, n, t, _x0(v))
+        ca = contribution(env, n, t, kind_a, v["ta"], v["da"], [v["ax"], v["ay"], v["az"]])
+        cb = contribution(env, n, t, kind_b, v["tb"], v["db"], [v["bx"], v["by"], v["bz"]])
+        return {"x": [x[k] + ca[k] + cb[k] for k in range(6)]}
+    sig = "CW: an impulse dated inside a continuous burn is dropped while the target date is inside the burn" if overlap else None
+    return Case(f"man_pair/{kind_a}{kind_b}" + ("/overlap" if overlap else ""), inputs, run, ref, pre=pre, timeout=120, tol=1e-5, abs_tol=1e-5,
+                signature=sig, maxpaths=400,
+                desc=f"propagate() through two maneuvers ({kind_a} then {kind_b}; i = impulse, c = continuous burn"
+                     + (", the impulse dated inside the burn" if overlap else ", the second not before the end of the first")
+                     + ") equals the free Hill motion plus the closed-form contribution of each maneuver")
+
+
 def man_cases(tier):
     cs = [man_case("impulsive"), man_case("cont_dv"), man_case("cont_accel_median"), man_case("impulsive", "TNW"),
           man_case("cont_dv", "TNW")]
     cs += [man_chain_case("impulsive", "fwd"), man_chain_case("cont_dv", "fwd"), man_chain_case("impulsive", "back"),
            man_chain_case("cont_dv", "back")]
+    cs += [man_pair_case("i", "i"), man_pair_case("i", "c"), man_pair_case("c", "i"), man_pair_case("c", "c"),
+           man_pair_case("c", "i", overlap=True)]
     if tier != "quick":
         cs += [man_chain_case("impulsive", "fwd", "TNW"), man_chain_case("cont_dv", "fwd", "TNW")]
     return cs
